@@ -31,6 +31,13 @@ CRIT_TABLES = {
     "minmax": (dict(M.BASE, NT=4, Kind="stop", MaxRuns=1, MaxRep=3, CKind="minmax", K=1, K2=9, FailB=1, R3=False, R13=False),
                {"nw": 2, "kind": "stop", "maxfail": 1, "ckind": "minmax", "k": 1, "k2": 9},
                {"min_metric_value": {"m": 1}, "max_metric_value": {"m": 9}}),
+    # thresholds on a metric that has no value (never reported): they do not hold, and do not hide the ones that follow
+    "minmetric_other": (dict(M.BASE, NT=4, Kind="stop", MaxRuns=1, MaxRep=3, CKind="minmetric", K=2, FailB=1, R3=False, R13=False),
+                        {"nw": 2, "kind": "stop", "maxfail": 1, "ckind": "minmetric", "k": 2},
+                        {"max_metric_value": {"late": 5.0}, "min_metric_value": {"late": 5.0, "m": 2}}),
+    "maxmetric_other": (dict(M.BASE, NT=3, Kind="pause", MaxRuns=2, MaxRep=2, CKind="maxmetric", K=8, FailB=1, R3=False, R13=False),
+                        {"nw": 2, "kind": "pause", "maxfail": 1, "ckind": "maxmetric", "k": 8, "del": True},
+                        {"max_metric_value": {"late": 5.0, "m": 8}, "min_metric_value": {"late": 5.0}}),
     "cost": (dict(M.BASE, NT=4, Kind="stop", MaxRuns=1, MaxRep=3, CKind="cost", K=6, FailB=1, R3=False, R13=False),
              {"nw": 2, "kind": "stop", "maxfail": 1, "ckind": "cost", "k": 6}, {"max_cost": 6}),
 }
